@@ -1023,13 +1023,8 @@ func eventsOf(g *fn, field string) *fieldEvents {
 	ev := &fieldEvents{calls: map[string][]token.Pos{}}
 	lhs := map[*ast.SelectorExpr]bool{}
 	for _, st := range g.decl.Body.List {
-		if as, ok := st.(*ast.AssignStmt); ok {
-			for _, l := range as.Lhs {
-				if se, ok := l.(*ast.SelectorExpr); ok && se.Sel.Name == field {
-					// the right-hand side is evaluated first: the write takes effect at the end of the statement
-					ev.writes = append(ev.writes, as.End())
-				}
-			}
+		if p, ok := topWrite(st, field, 0); ok {
+			ev.writes = append(ev.writes, p)
 		}
 	}
 	ast.Inspect(g.decl.Body, func(n ast.Node) bool {
@@ -1099,6 +1094,45 @@ func callees(n string) []*fn {
 		return r
 	}
 	return funcs[n]
+}
+
+// topWrite: the statement (one of a function body's own statements, so it runs whenever the function gets that far) assigns the
+// field - directly, or by calling a helper whose own body does so unconditionally. Returns where the write has taken effect.
+func topWrite(st ast.Stmt, field string, depth int) (token.Pos, bool) {
+	switch x := st.(type) {
+	case *ast.AssignStmt:
+		for _, l := range x.Lhs {
+			if se, ok := l.(*ast.SelectorExpr); ok && se.Sel.Name == field {
+				// the right-hand side is evaluated first: the write takes effect at the end of the statement
+				return x.End(), true
+			}
+		}
+	case *ast.ExprStmt:
+		ce, ok := x.X.(*ast.CallExpr)
+		if !ok || depth > 3 {
+			return 0, false
+		}
+		name := ""
+		switch f := ce.Fun.(type) {
+		case *ast.Ident:
+			name = f.Name
+		case *ast.SelectorExpr:
+			name = f.Sel.Name
+		}
+		hs := funcs[name]
+		if name == "" || builtins[name] || len(hs) != 1 || hs[0].decl.Body == nil { // only an unambiguous helper
+			return 0, false
+		}
+		for _, hst := range hs[0].decl.Body.List {
+			if _, ok := topWrite(hst, field, depth+1); ok {
+				return x.End(), true
+			}
+			if _, isRet := hst.(*ast.ReturnStmt); isRet {
+				break
+			}
+		}
+	}
+	return 0, false
 }
 
 func writtenBefore(ev *fieldEvents, pos token.Pos) bool {
